@@ -224,7 +224,7 @@ func watchRun(idx int) {
 	watchedRun.Store(int64(idx))
 }
 
-func runLimit() time.Duration { return time.Duration(envInt("VERIF_RUN_LIMIT_S", 240)) * time.Second }
+func runLimit() time.Duration { return time.Duration(envInt("VERIF_RUN_LIMIT_S", 60)) * time.Second }
 
 func startWatchdog() {
 	watchedRun.Store(-1)
